@@ -18,9 +18,9 @@ echo "demo dir=$demodir suite=$suite tests=$tests" >> $LOG
 exec 9>/tmp/w4/lock_$P; flock 9
 cd $WT && git checkout -q -- . && git clean -fdq -e _mutants
 cp $D/*_test.go $WT/$demodir/
-(cd $WT/$demodir && timeout 600 go test -vet=off -count=1 -timeout 300s -run "^($tests)\$" . > /tmp/w4/cm_${P}_${N}_without.log 2>&1); W=$?
+(cd $WT/$demodir && timeout 900 go test $DEMO_FLAGS -vet=off -count=1 -timeout 300s -run "^($tests)\$" . > /tmp/w4/cm_${P}_${N}_without.log 2>&1); W=$?
 cd $WT && git apply $D/patch.diff || { echo "PATCH-DOES-NOT-APPLY" >> $LOG; exit 2; }
-(cd $WT/$demodir && timeout 600 go test -vet=off -count=1 -timeout 300s -run "^($tests)\$" . > /tmp/w4/cm_${P}_${N}_with.log 2>&1); X=$?
+(cd $WT/$demodir && timeout 900 go test $DEMO_FLAGS -vet=off -count=1 -timeout 300s -run "^($tests)\$" . > /tmp/w4/cm_${P}_${N}_with.log 2>&1); X=$?
 for f in $D/*_test.go; do rm -f $WT/$demodir/$(basename $f); done
 (cd $WT/$suite && go build ./... > /tmp/w4/cm_${P}_${N}_build.log 2>&1); B=$?
 (cd $WT/$suite && go test -vet=off -count=1 -timeout 25m ./... > /tmp/w4/cm_${P}_${N}_suite.log 2>&1); S=$?
